@@ -4,6 +4,7 @@
 //!        mc <ID> --replay <file>             re-run one recorded violating case
 //! exit : 0 property held on everything explored; 1 VIOLATION printed; 2 machinery failure.
 
+mod burnutil;
 mod common;
 mod props;
 mod refs;
